@@ -139,12 +139,17 @@ def run_impl_model(ctx):
         toks = rep.split()
         i = 0; L = int(toks[i]); phys = toks[i + 1:i + 1 + L]; i += 1 + L
         P = int(toks[i]); pax = toks[i + 1:i + 1 + 2 * P]; i += 1 + 2 * P
-        mp = [str(L)] + phys + [str(P)] + sum((['P', pax[2 * j], pax[2 * j + 1]] for j in range(P)), []) + toks[i:-1]
+        mp = [str(L)] + phys + [str(P)] + sum((['P', pax[2 * j], pax[2 * j + 1]] for j in range(P)), []) + toks[i:-3]
+        unified, resolved = toks[-3], toks[-2]
         ctx.evaluations += 1
+        ctx.count('impl-model.' + ('all-unified' if unified == 'T' else 'some-unification-failed'))
         if canon(mp) != canon(want.split()):
             ctx.disagree('Ei.einsum (model of the patterned einsum): representation of the result', case, want, ' '.join(mp))
         elif toks[-1] != 'T':
             ctx.disagree('Ei.einsum: the model\'s result is not well formed (PT.wf)', case, want, rep)
+        elif resolved != 'T':
+            # the decidable side condition of the theorem C07.einsum_dense (fuel resolves every clone, no axis bound twice)
+            ctx.disagree('Ei.resolved is false for this job: the theorem C07.einsum_dense does not cover it', case, None, rep[-40:])
 
 
 def run(ctx):
